@@ -22,6 +22,9 @@ def unwrap_scalar(e):
 
 
 def run(repo, R):
+    R.rule("PITFALL", "no result buffer typed after an input, no real cast of a transformation, no unbuffered accumulation / first-occurrence scatter through np.unique")
+    from ..pitfalls import report as _pitfalls
+    _pitfalls(repo, R, ['gbasis.evals.electrostatic_potential'])
     R.rule("D1", "a nuclear term is zeroed exactly under `distance < threshold_dist`: the mask depends on points, nuclear_coords, "
                  "threshold_dist and not on nuclear_charges; the distance is sqrt(sum((point - nucleus)^2))")
     R.rule("D2", "the density-matrix size check is made against the transformed orbitals when a transformation is given")
